@@ -57,6 +57,15 @@ def _worker(task):
         faulthandler.cancel_dump_traceback_later()
 
 
+def big_every_for(tier):
+    return 4 if tier == "thorough" else 25
+
+
+def profile_for(profile, run, big_every):
+    """Every big_every-th run uses the profile's deep-bounds variant (long scenes, crowded frames, long histories)."""
+    return profile + (":big" if big_every and run % big_every == big_every - 1 else "")
+
+
 def load_findings():
     with open(os.path.join(HERE, "known_findings.json")) as f:
         return json.load(f)
@@ -100,14 +109,14 @@ REAL_STUB = {
 }
 
 
-def determinism_probe(prop, profile, seed, runs, hashseed):
+def determinism_probe(prop, profile, seed, runs, hashseed, tier):
     """Digests of the first `runs` runs from a fresh interpreter under another PYTHONHASHSEED."""
     envv = dict(os.environ)
     envv.pop("WORLDSIM_REEXEC", None)
     envv["VERIF_HASHSEED"] = str(hashseed)
     envv["PYTHONHASHSEED"] = str(hashseed)
     cmd = [sys.executable, os.path.join(HERE, "check.py"), "--digests", "--property", prop, "--profile", profile,
-           "--seed", str(seed), "--runs", str(runs)]
+           "--seed", str(seed), "--runs", str(runs), "--tier", tier]
     out = subprocess.run(cmd, env=envv, capture_output=True, text=True, timeout=600)
     if out.returncode != 0:
         raise RuntimeError("determinism probe failed: %s" % out.stderr[-2000:])
@@ -120,7 +129,7 @@ def do_digests(args):
     env.repo()
     out = []
     for run in range(args.runs):
-        pl = P.make_plan(args.seed, run, args.profile)
+        pl = P.make_plan(args.seed, run, profile_for(args.profile, run, big_every_for(args.tier)))
         res = cases.run_case(pl, args.property)
         if "harness_error" in res:
             sys.stderr.write(res["harness_error"])
@@ -179,7 +188,7 @@ def sweep_tasks(prop, profile, seed, n_bases, per_kind_cap):
     return tasks
 
 
-def run_batch(prop, profile, seed, n_runs, cap, workers, sample_every, findings, tasks=None):
+def run_batch(prop, profile, seed, n_runs, cap, workers, sample_every, findings, tasks=None, big_every=0):
     """Run the batch on a fork pool; returns (results, wall, capped)."""
     ctx = multiprocessing.get_context("fork")
     env.repo()  # import once, fork afterwards
@@ -194,7 +203,7 @@ def run_batch(prop, profile, seed, n_runs, cap, workers, sample_every, findings,
         stop = False
         while (nxt < n_runs and not stop) or pending:
             while nxt < n_runs and len(pending) < workers * 3 and not stop:
-                task = tasks[nxt] if tasks is not None else (seed, nxt, profile, prop, nxt % sample_every == 0)
+                task = tasks[nxt] if tasks is not None else (seed, nxt, profile_for(profile, nxt, big_every), prop, nxt % sample_every == 0)
                 pending.add(ex.submit(_worker, task))
                 nxt += 1
             done, pending = cf.wait(pending, timeout=5.0, return_when=cf.FIRST_COMPLETED)
@@ -253,7 +262,8 @@ def main():
 
     # main batch (fault-injecting swarm), then a separate fault-free batch so that relaxations hide nothing
     findings = load_findings()
-    results, wall, capped = run_batch(prop, args.profile, args.seed, n_runs, cap, args.workers, 40, findings)
+    results, wall, capped = run_batch(prop, args.profile, args.seed, n_runs, cap, args.workers, 40, findings,
+                                      big_every=big_every_for(args.tier))
     clean_results, clean_wall, _ = run_batch(prop, "clean", args.seed, max(16, n_runs // 8), max(10.0, cap / 6), args.workers, 40, findings)
     sw = TIERS[args.tier]["sweep"]
     sweep_results, sweep_wall, sweep_capped = run_batch(prop, args.profile, args.seed, 0, max(8.0, cap * sw[2]), args.workers, 40, findings,
@@ -279,7 +289,7 @@ def main():
     det_ok = None
     if not new_hits:
         mine = {r["run"]: r["digest"] for r in results if r["run"] < det_n and "digest" in r}
-        other = determinism_probe(prop, args.profile, args.seed, det_n, 4242)
+        other = determinism_probe(prop, args.profile, args.seed, det_n, 4242, args.tier)
         det_ok = all(mine.get(i) == d for i, d in enumerate(other) if i in mine)
         if not det_ok:
             sys.stderr.write("DETERMINISM FAILURE: digests differ between this run and a fresh interpreter (PYTHONHASHSEED=4242)\n")
